@@ -56,9 +56,13 @@ def consts(tier: str, part: str):
         if part == "chain":
             base.update({"Topos": g.tla_set(["row4", "zig4"]), "RotChoice": "{1, 30}",
                          "ChopOpts": g.tla_set(["A2"]), "MaxChopped": "0", "Cover": "TRUE", "AllOrders": "TRUE"})
+        elif part == "live":
+            # liveness (Terminates, under weak fairness) is checked on the small parts only: it is what costs TLC most
+            base.update({"Topos": g.tla_set(["row4", "tee4b"]), "RotChoice": "{1}",
+                         "ChopOpts": g.tla_set(["A2"]), "MaxChopped": "0", "Cover": "TRUE", "AllOrders": "FALSE"})
         elif part == "free":
             base.update({"Topos": g.tla_set(["face2", "edge2", "corner2", "row3", "ell3", "hook3", "stair3"]),
-                         "RotChoice": "{1, 4, 30}", "Rot1Choice": "{1, 11}",
+                         "RotChoice": "{1, 30}", "Rot1Choice": "{1, 11}",
                          "ChopOpts": g.tla_set(["A2", "B3", "C2"]), "MaxChopped": "2", "Cover": "FALSE", "AllOrders": "TRUE"})
         elif part == "cover":
             # three blocks: two-section chops and three numberings
@@ -91,11 +95,11 @@ def run(ctx: Ctx) -> None:
                 "each replayed under several forced iteration orders of Axis.neighbours/Wire.coincidents; "
                 "non-trivial = propagation has to cross at least one shared edge; distinct by (vertex ids, chops)")
     rng = random.Random(ctx.seed + 2)
-    n_sched = 2 if ctx.tier == "quick" else 8
-    limit = 260 if ctx.tier == "quick" else 12000
-    for part in ("free", "cover", "chain", "multi", "swap4") + (("cover4",) if ctx.tier == "thorough" else ()):
+    n_sched = 2 if ctx.tier == "quick" else 4
+    limit = 260 if ctx.tier == "quick" else 4000
+    for part in ("free", "cover", "chain", "multi", "swap4") + (("cover4", "live") if ctx.tier == "thorough" else ()):
         c = consts(ctx.tier, part)
-        cfgs = g.model_check(ctx, c, INVS, props=["Terminates"] if ctx.tier == "thorough" else [],
+        cfgs = g.model_check(ctx, c, INVS, props=["Terminates"] if ctx.tier == "thorough" and part in ("swap4", "live", "multi") else [],
                              timeout=3000, emit=True).records
         if len(cfgs) > limit:
             rng.shuffle(cfgs)
